@@ -659,6 +659,151 @@ def span_rule(prog, rep):
 
 
 # ---------------------------------------------------------------------------
+def chunk_framing(prog, rep):
+    """W10: the chunked transfer coding is taken apart as RFC 7230 4.1 lays it out -- size line and its CRLF consumed
+    together, a size of zero (and only zero) ends the body, the chunk's data is what `readlen` counts, the CRLF after the data
+    is waited for, consumed (two bytes, no more, no fewer) and not added to the body, then the next size line is read.
+    Decided from the amounts handed to netbuf_read_consume / netbuf_read_wait and the edges they sit on."""
+    u = prog.unit(UNIT)
+    hd, eol, rd = u.func("callback_chunkedheader"), u.func("callback_chunkedeol"), u.func("callback_readdata")
+    if hd is None or eol is None or rd is None:
+        raise cdb.AnalysisBroken("anchor missing: callback_chunkedheader / callback_chunkedeol / callback_readdata")
+
+    def atoms(f, e):
+        return [(op, L, R) for cond, truth in f.edge_conds(e) for op, L, R, _, _ in cond_atoms(cond, truth)]
+    # (a) the size line and its CRLF
+    fe = list(hd.calls("findeol"))
+    cons = list(hd.calls("netbuf_read_consume"))
+    ok = len(fe) == 1 and len(cons) == 1
+    d = "%d findeol, %d consume calls" % (len(fe), len(cons))
+    if ok:
+        ev = [norm(e.kid(0)) for e in hd.all_elems() if e.is_assign and e.op == "=" and e.kid(1).strip() is fe[0]]
+        ok = len(ev) == 1 and norm(cons[0].arg(1)) == ir.B("+", ev[0], ("c", 2))
+        d = "consumes %s" % show(norm(cons[0].arg(1)))
+        if ok:
+            blen = norm(fe[0].arg(1))
+            ok = any(op == "!=" and {L, R} == {ev[0], blen} for op, L, R in atoms(hd, cons[0]))
+            d += "; on the edge where a line end was found: %s" % ok
+    rep.check(ok, "W10-chunk", "the chunk-size line is consumed together with its CRLF (line end position + 2)", (cons[0].where if cons else hd.loc), d, function=hd.name, construct="size-line")
+    # (b) zero ends the body, (c) otherwise the data length is the parsed size
+    pn = [c for c in hd.calls() if c.callee in ("parsenum_unsigned", "parsenum_signed")]
+    sizes = set()
+    for e in hd.all_elems():
+        if e.is_assign and e.op == "=" and e.kid(1).strip() is not None and e.kid(1).strip().cls == "CallExpr" and e.kid(1).strip().callee == "parsenum_unsigned" and e.kid(1).strip().block.id in hd.reachable():
+            sizes.add(norm(e.kid(0)))
+    done = [c for c in hd.calls("docallback")]
+    ok = len(sizes) == 1 and len(done) == 1
+    d = "size variable %s, %d docallback calls" % (sorted(map(show, sizes)), len(done))
+    if ok:
+        cl = list(sizes)[0]
+        az = [(op, R) for op, L, R in atoms(hd, done[0]) if L == cl and R[0] == "c"]
+        rl = [e for e in hd.all_elems() if e.is_assign and e.op == "=" and norm(e.kid(0))[0] == "." and norm(e.kid(0))[2] == "readlen"]
+        nz = [(op, R) for e in rl for op, L, R in atoms(hd, e) if L == cl and R[0] == "c"]
+        ok = ("==", ("c", 0)) in az and len(rl) == 1 and norm(rl[0].kid(1)) == cl and ("!=", ("c", 0)) in nz and hd.dominates(cons[0], done[0]) if cons else False
+        d = "completion under %s; readlen = %s under %s" % (az, show(norm(rl[0].kid(1))) if rl else "?", nz)
+    rep.check(ok, "W10-chunk", "a chunk size of zero, and only zero, ends the body (after its line was consumed); otherwise the size is the data length to read", hd.loc, d,
+              function=hd.name, construct="last-chunk")
+    # (d) the CRLF after the data
+    cons = list(eol.calls("netbuf_read_consume"))
+    waits = list(eol.calls("netbuf_read_wait"))
+    nxt = list(eol.calls("callback_chunkedheader"))
+    ok = len(cons) == 1 and len(waits) == 1 and len(nxt) == 1 and norm(cons[0].arg(1)) == ("c", 2) and norm(waits[0].arg(1)) == ("c", 2) and eol.dominates(cons[0], nxt[0])
+    d = "consume %s, wait %s" % ([show(norm(c.arg(1))) for c in cons], [show(norm(c.arg(1))) for c in waits])
+    if ok:
+        have = [(op, R) for op, L, R in atoms(eol, cons[0]) if R[0] == "c" and L[0] == "v"]
+        lack = [(op, R) for op, L, R in atoms(eol, waits[0]) if R[0] == "c" and L[0] == "v"]
+        ok = ((">=", ("c", 2)) in have or (">", ("c", 1)) in have) and (("<", ("c", 2)) in lack or ("<=", ("c", 1)) in lack)
+        d += "; consumed when %s, waited for when %s" % (have, lack)
+        adds = list(eol.calls("addbody"))
+        ok = ok and not adds
+    rep.check(ok, "W10-chunk", "the CRLF after a chunk's data: two bytes waited for, two consumed, none added to the body, then the next size line", eol.loc, d,
+              function=eol.name, construct="data-crlf")
+    # (e) a finished chunk goes on to its CRLF, a finished plain body completes
+    ce = list(rd.calls("callback_chunkedeol"))
+    ok = len(ce) == 1
+    d = "%d calls of callback_chunkedeol" % len(ce)
+    if ok:
+        at = atoms(rd, ce[0])
+        ok = any(op == "==" and L[0] == "." and L[2] == "readlen" and R == ("c", 0) for op, L, R in at) and any(op == "!=" and L[0] == "." and L[2] == "chunked" and R == ("c", 0) for op, L, R in at)
+        d = "under %s" % [(op, show(L), show(R)) for op, L, R in at][-3:]
+        hdirect = list(rd.calls("callback_chunkedheader"))
+        ok = ok and not hdirect
+    rep.check(ok, "W10-chunk", "when a chunk's data is complete the reader goes on to the CRLF that follows it, not straight to the next size line", rd.loc, d,
+              function=rd.name, construct="after-data")
+
+
+# ---------------------------------------------------------------------------
+def header_split(prog, rep):
+    """W9: a header line is split the way the grammar says.  Optional whitespace is SP and HTAB, nothing else: the trailing trim
+    cuts the line's last character exactly when it is one of the two (and only while the line is not empty), writing the
+    terminator over the character it tested; the name ends at the first ':' (strcspn with ":"); the name pointer is the line's
+    start, taken before the ':' is overwritten; the value starts after the colon and is advanced past leading SP/HTAB
+    (strspn with exactly those two)."""
+    u = prog.unit(UNIT)
+    f = u.func("gotheaders")
+    if f is None:
+        raise cdb.AnalysisBroken("anchor missing: gotheaders")
+    SPHT = {32, 9}
+
+    def fld(n):
+        return n[2] if n[0] == "." else None
+    # leading whitespace of the value
+    adv = [e for e in f.all_elems() if ir.step(e) and ir.step(e)[0] == "+=" and fld(ir.step(e)[1]) == "value"]
+    ok = len(adv) == 1
+    d = "%d advances of .value" % len(adv)
+    if ok:
+        amt = ir.step(adv[0])[2]
+        ok = amt[0] == "call" and amt[1] == "strspn" and amt[2] == ir.step(adv[0])[1] and amt[3][0] == "s" and set(amt[3][1]) == SPHT and len(amt[3][1]) == 2
+        d = show(amt)
+    rep.check(ok, "W9-split", "the value is advanced past leading SP / HTAB, exactly those", (adv[0].where if adv else f.loc), d, function=f.name, construct="ows-leading")
+    # the split at the first colon
+    cs = [c for c in f.calls("strcspn") if norm(c.arg(1)) == ("s", b":")]
+    names = [e for e in f.all_elems() if e.is_assign and e.op == "=" and fld(norm(e.kid(0))) == "header"]
+    ok = len(cs) == 1 and len(names) == 1 and norm(names[0].kid(1)) == norm(cs[0].arg(0))
+    if ok:
+        line = norm(cs[0].arg(0))
+        cut = [e for e in f.all_elems() if e.is_assign and e.op == "=" and norm(e.kid(1)) == ("c", 0) and norm(e.kid(0))[0] == "[]" and norm(e.kid(0))[1] == line
+               and any(x.is_assign and norm(x.kid(0)) == norm(e.kid(0))[2] and x.kid(1).strip() is cs[0] for x in f.all_elems())]
+        vals = [e for e in f.all_elems() if e.is_assign and e.op == "=" and fld(norm(e.kid(0))) == "value"]
+        ok = len(cut) == 1 and len(vals) == 1 and f.dominates(vals[0], cut[0])
+        d = "cut %d, value stores %d" % (len(cut), len(vals))
+        if ok:
+            idx = norm(cut[0].kid(0))[2]
+            v = norm(vals[0].kid(1))
+            after, at = ("&", ("[]", line, ir.B("+", idx, ("c", 1)))), ("&", ("[]", line, idx))
+            ok = v == ("?:", ("[]", line, idx), after, at) or v == ("?:", ("!=", ("[]", line, idx), ("c", 0)), after, at) or v == ("?:", ("==", ("[]", line, idx), ("c", 0)), at, after)
+            d = show(v)
+    else:
+        d = "%d strcspn(.., \":\") calls, %d stores of .header" % (len(cs), len(names))
+    rep.check(ok, "W9-split", "the name is the line up to its first ':', the value what follows the colon (or the empty end of a line without one), taken before the colon is overwritten",
+              (cs[0].where if cs else f.loc), d, function=f.name, construct="colon-split")
+    # trailing whitespace
+    cuts = [e for e in f.all_elems() if e.is_assign and e.op == "=" and norm(e.kid(1)) == ("c", 0) and norm(e.kid(0))[0] == "[]" and norm(e.kid(0))[2][0] in ("upre--",)]
+    ok = len(cuts) == 1
+    d = "%d stores of NUL at a pre-decremented index" % len(cuts)
+    if ok:
+        e = cuts[0]
+        line, n = norm(e.kid(0))[1], norm(e.kid(0))[2][1]
+        last = ("[]", line, ir.B("-", n, ("c", 1)))
+        # characters whose test leads straight into the cut, and the guard of the loop
+        chars = set()
+        for b in f.blocks.values():
+            if b.cond is None or len(b.succs) != 2:
+                continue
+            for i, sb in enumerate(b.succs):
+                if sb == e.block.id:
+                    for op, L, R, _, _ in cond_atoms(b.cond, i == 0):
+                        if op == "==" and L == last and R[0] == "c":
+                            chars.add(R[1])
+                        elif not (op in ("!=",) and L == last):
+                            chars.add((op, show(L), show(R)))
+        guard = any(op == ">" and L == n and R == ("c", 0) for cond, truth in f.edge_conds(e) for op, L, R, _, _ in cond_atoms(cond, truth))
+        ok = chars == SPHT and guard
+        d = "characters trimmed %s, guarded by %s > 0: %s" % (sorted(chars, key=str), show(n), guard)
+    rep.check(ok, "W9-split", "trailing SP / HTAB are cut, exactly those, one at a time from a non-empty line", (cuts[0].where if cuts else f.loc), d, function=f.name, construct="ows-trailing")
+
+
+# ---------------------------------------------------------------------------
 def borrow_rule(prog, rep):
     """W8: the request description handed to http_request() is the caller's and may be gone when the call returns -- the
     interface asks only for the request *body* to stay valid.  So the constructor keeps no pointer into it in the request it
